@@ -8,16 +8,38 @@ Open Scope N_scope.
 
 (* ---------- small list / reader facts ---------- *)
 
+Lemma rd_take : forall n l, rd n l = take n l.
+Proof.
+  induction n as [|n IH]; intros l.
+  - unfold take. cbn. reflexivity.
+  - destruct l as [|x r]; [reflexivity|]. cbn [rd]. rewrite IH. unfold take. cbn [length firstn skipn].
+    change (S (length r) <? S n)%nat with (length r <? n)%nat.
+    destruct (length r <? n)%nat; reflexivity.
+Qed.
+
+Lemma rd_app_n n a r : length a = n -> rd n (a ++ r) = Some (a, r).
+Proof. rewrite rd_take. apply take_app_n. Qed.
+
+Lemma rd_some n l a r : rd n l = Some (a, r) -> l = a ++ r /\ length a = n.
+Proof. rewrite rd_take. apply take_some. Qed.
+
+Lemma takeN_ref n l : takeN n l = if N.of_nat (length l) <? n then None else take (N.to_nat n) l.
+Proof.
+  unfold takeN. rewrite rd_take. destruct (65535 <? n); [reflexivity|].
+  destruct (N.of_nat (length l) <? n) eqn:E; [|reflexivity].
+  apply take_none. lia.
+Qed.
+
 Lemma takeN_app_n n a r : length a = n -> takeN (N.of_nat n) (a ++ r) = Some (a, r).
 Proof.
-  intros <-. unfold takeN. rewrite app_length.
+  intros <-. rewrite takeN_ref, app_length.
   replace (N.of_nat (length a + length r) <? N.of_nat (length a)) with false by lia.
   rewrite Nat2N.id. apply take_app.
 Qed.
 
 Lemma takeN_some n l a r : takeN n l = Some (a, r) -> l = a ++ r /\ N.of_nat (length a) = n.
 Proof.
-  unfold takeN. destruct (N.of_nat (length l) <? n) eqn:E; [discriminate|].
+  rewrite takeN_ref. destruct (N.of_nat (length l) <? n) eqn:E; [discriminate|].
   intros H. apply take_some in H as [H1 H2]. split; [exact H1|]. lia.
 Qed.
 
@@ -116,7 +138,7 @@ Proof.
     exists (le_bytes (vsize tv) (N.of_nat (length l)) ++ l). repeat split.
     + apply nonempty_len. rewrite app_length, le_bytes_length. lia.
     + rewrite bytes_okb_app, le_bytes_ok. exact Hb.
-    + intros r. rewrite <- app_assoc, (take_app_n (vsize tv)) by apply le_bytes_length.
+    + intros r. rewrite <- app_assoc, (rd_app_n (vsize tv)) by apply le_bytes_length.
       rewrite of_le_le_bytes by lia. rewrite (takeN_app_n (length l)) by reflexivity. reflexivity.
 Qed.
 
@@ -457,7 +479,7 @@ Definition body_tail (q : bool) (d : dict) (m : msg) (raw : list N) : option (ms
       match find_name d (m_name m) with
       | None => None
       | Some t =>
-          match take (freq_len (mfreq t) + length (m_extra m)) buf with
+          match rd (freq_len (mfreq t) + length (m_extra m)) buf with
           | None => None
           | Some (_, buf1) =>
               match parse_blocks q (mblocks t) buf1 with
@@ -571,7 +593,7 @@ Proof.
     { unfold bodyb. destruct (zerocoded fl) eqn:Ez; [|reflexivity]. apply expand_compress; auto. }
     rewrite Eexp. rewrite (find_name_of_in d t Hwf Hin).
     unfold body at 1. rewrite app_assoc.
-    rewrite (take_app_n (freq_len (mfreq t) + length ex)) by (rewrite app_length, Efnb; reflexivity).
+    rewrite (rd_app_n (freq_len (mfreq t) + length ex)) by (rewrite app_length, Efnb; reflexivity).
     rewrite Pblk.
     assert (Enil : is_nil (norm_body (mblocks t) bd) && negb (is_nil (mblocks t)) = false).
     { destruct (mblocks t) as [|tb r] eqn:Emb; [reflexivity|].
